@@ -12,89 +12,188 @@ import (
 	"strings"
 )
 
-// facts regenerates lean/Golib/Gen/FactsC03.lean from setz/roaring_bitmap.go: the
-// conversion threshold, the buffer and word-array sizes, the hand-set cardinality after a
-// conversion, and whether RoaringBitmapIter.Next resets the inner iterator when it
-// advances to the next bucket (the F2 repair).
+// facts regenerates lean/Golib/Gen/FactsC03.lean from setz/roaring_bitmap.go, setz/iter.go
+// and setz/bits.go: the constants and statement shapes that the hand-written Lean model
+// copies from the source text.  A shape that is not found is emitted as `false` / 0 so that
+// `c03_facts` no longer decides (the intended alarm); only an unparsable file is an error.
 func facts(repo string) (string, error) {
 	fset := token.NewFileSet()
-	f, err := parser.ParseFile(fset, filepath.Join(repo, "setz", "roaring_bitmap.go"), nil, 0)
-	if err != nil {
-		return "", err
-	}
 	render := func(n ast.Node) string {
+		if n == nil {
+			return ""
+		}
 		var buf bytes.Buffer
 		_ = printer.Fprint(&buf, fset, n)
 		return strings.Join(strings.Fields(buf.String()), " ")
 	}
+	decls := map[string]*ast.FuncDecl{}
 	bodies := map[string]string{}
-	bufLen := ""
-	for _, d := range f.Decls {
-		switch d := d.(type) {
-		case *ast.FuncDecl:
-			if d.Body == nil {
-				continue
-			}
-			name := d.Name.Name
-			if d.Recv != nil && len(d.Recv.List) == 1 {
-				name = render(d.Recv.List[0].Type) + "." + name
-			}
-			bodies[name] = render(d.Body)
-		case *ast.GenDecl:
-			for _, s := range d.Specs {
-				ts, ok := s.(*ast.TypeSpec)
-				if !ok || ts.Name.Name != "RoaringBitmap" {
+	bufLen := "0"
+	load := func(name string) error {
+		f, err := parser.ParseFile(fset, filepath.Join(repo, "setz", name), nil, 0)
+		if err != nil {
+			return err
+		}
+		for _, d := range f.Decls {
+			switch d := d.(type) {
+			case *ast.FuncDecl:
+				if d.Body == nil {
 					continue
 				}
-				st, ok := ts.Type.(*ast.StructType)
-				if !ok {
-					continue
+				n := d.Name.Name
+				if d.Recv != nil && len(d.Recv.List) == 1 {
+					n = render(d.Recv.List[0].Type) + "." + n
 				}
-				for _, fl := range st.Fields.List {
-					for _, n := range fl.Names {
-						if n.Name == "buf" {
-							if at, ok := fl.Type.(*ast.ArrayType); ok && at.Len != nil {
-								bufLen = render(at.Len)
+				decls[n] = d
+				bodies[n] = render(d.Body)
+			case *ast.GenDecl:
+				for _, s := range d.Specs {
+					ts, ok := s.(*ast.TypeSpec)
+					if !ok || ts.Name.Name != "RoaringBitmap" {
+						continue
+					}
+					st, ok := ts.Type.(*ast.StructType)
+					if !ok {
+						continue
+					}
+					for _, fl := range st.Fields.List {
+						for _, n := range fl.Names {
+							if n.Name == "buf" {
+								if at, ok := fl.Type.(*ast.ArrayType); ok && at.Len != nil {
+									if s := render(at.Len); regexp.MustCompile(`^\d+$`).MatchString(s) {
+										bufLen = s
+									}
+								}
 							}
 						}
 					}
 				}
 			}
 		}
+		return nil
 	}
-	one := func(fn, pat string) (string, error) {
-		b, ok := bodies[fn]
-		if !ok {
-			return "", fmt.Errorf("function %s not found", fn)
+	for _, n := range []string{"roaring_bitmap.go", "iter.go", "bits.go"} {
+		if err := load(n); err != nil {
+			return "", err
 		}
-		m := regexp.MustCompile(pat).FindAllStringSubmatch(b, -1)
+	}
+	// num: the single capture of pat in the body of fn, "0" when absent or ambiguous.
+	num := func(fn, pat string) string {
+		m := regexp.MustCompile(pat).FindAllStringSubmatch(bodies[fn], -1)
 		if len(m) != 1 {
-			return "", fmt.Errorf("%s: pattern %q matches %d times", fn, pat, len(m))
+			return "0"
 		}
-		return m[0][1], nil
+		return m[0][1]
 	}
-	thr, err := one("*arrayContainer.Add", `if len\(ac\.values\) < (\d+) \{`)
-	if err != nil {
-		return "", err
-	}
-	card, err := one("*arrayContainer.Add", `newContainer\.length = (\d+)`)
-	if err != nil {
-		return "", err
-	}
-	words, err := one("*arrayContainer.Add", `\*\(\*\[(\d+)\]uint64\)\(unsafe\.Pointer\(&ac\.values\[0\]\)\)`)
-	if err != nil {
-		return "", err
-	}
-	if bufLen == "" {
-		return "", fmt.Errorf("RoaringBitmap.buf array length not found")
-	}
-	next, ok := bodies["*RoaringBitmapIter.Next"]
-	if !ok {
-		return "", fmt.Errorf("RoaringBitmapIter.Next not found")
-	}
+	has := func(fn, lit string) bool { return strings.Count(bodies[fn], lit) == 1 }
+
+	thr := num("*arrayContainer.Add", `if len\(ac\.values\) < (\d+) \{`)
+	card := num("*arrayContainer.Add", `newContainer\.length = (\d+)`)
+	words := num("*arrayContainer.Add", `\*\(\*\[(\d+)\]uint64\)\(unsafe\.Pointer\(&ac\.values\[0\]\)\)`)
+	next := bodies["*RoaringBitmapIter.Next"]
 	reset := strings.Contains(next, "i.node = i.node.Next() i.iter = nil }")
+
+	// (a) All's yield function = Range's body modulo the callback's name
+	allEq := false
+	if rd, ad := decls["*RoaringBitmap.Range"], decls["*RoaringBitmap.All"]; rd != nil && ad != nil {
+		cbName := func(ft *ast.FuncType) string {
+			if ft == nil || ft.Params == nil || len(ft.Params.List) != 1 || len(ft.Params.List[0].Names) != 1 {
+				return ""
+			}
+			return ft.Params.List[0].Names[0].Name
+		}
+		rename := func(body *ast.BlockStmt, from string) string {
+			s := render(body)
+			return regexp.MustCompile(`\b`+regexp.QuoteMeta(from)+`\(`).ReplaceAllString(s, "CALLBACK(")
+		}
+		if len(ad.Body.List) == 1 {
+			if rs, ok := ad.Body.List[0].(*ast.ReturnStmt); ok && len(rs.Results) == 1 {
+				if fl, ok := rs.Results[0].(*ast.FuncLit); ok {
+					rn, an := cbName(rd.Type), cbName(fl.Type)
+					if rn != "" && an != "" {
+						allEq = rename(rd.Body, rn) == rename(fl.Body, an)
+					}
+				}
+			}
+		}
+	}
+
+	// (b) Remove: `ok = c.Remove(low)` then `if ok { r.len--; if c.Len() == 0 { r.containers.Remove(high) } }`
+	removeGuard := strings.Contains(bodies["*RoaringBitmap.Remove"],
+		"ok = c.Remove(low) if ok { r.len-- if c.Len() == 0 { r.containers.Remove(high) } } return ok }") &&
+		has("*RoaringBitmap.Remove", "r.containers.Remove(")
+
+	// (c) arrayContainer.Add: search, then the duplicate test, then the threshold test
+	dupFirst := false
+	if d := decls["*arrayContainer.Add"]; d != nil {
+		iDup, iThr := -1, -1
+		for i, st := range d.Body.List {
+			if is, ok := st.(*ast.IfStmt); ok && is.Init == nil {
+				switch c := render(is.Cond); {
+				case c == "pos < len(ac.values) && ac.values[pos] == x" && render(is.Body) == "{ return ac, false }":
+					iDup = i
+				case strings.HasPrefix(c, "len(ac.values) < "):
+					iThr = i
+				}
+			}
+		}
+		dupFirst = iDup == 1 && iThr == 2 && render(d.Body.List[0]) == "pos := search(ac.values, x)"
+	}
+	//     the word loop of Range (All is tied to it by allBodyEqRange)
+	rangeInner := num("*RoaringBitmap.Range", `for j := 0; j < (\d+); j\+\+ \{`)
+	rangeShape := has("*RoaringBitmap.Range", "for i := 0; i < len(bc.Bitmap.set); i++ { for j := 0; j < ") &&
+		has("*RoaringBitmap.Range", "if bc.Bitmap.set[i]&(1<<j) != 0 { if !fn(uint32(high)<<16 | uint32(i<<6+j)) { return } }") &&
+		has("*RoaringBitmap.Range", "if c.Type() == 1 { ac := c.(*arrayContainer) for _, low := range ac.values { if !fn(uint32(high)<<16 | uint32(low)) { return } } } else {") &&
+		bodies["*arrayContainer.Type"] == "{ return 1 }" && bodies["*bitmapContainer.Type"] == "{ return 2 }"
+
+	// (d) other constants the model copies
+	arrIterStart := "0"
+	if m := regexp.MustCompile(`^\{ return &arrayContainerIter\{c: ac, i: (-?\d+)\} \}$`).FindStringSubmatch(bodies["*arrayContainer.Iter"]); m != nil {
+		arrIterStart = m[1]
+	}
+	arrIterNext := bodies["*arrayContainerIter.Next"] == "{ if i.i < len(i.c.values)-1 { i.i++ return true } return false }" &&
+		bodies["*arrayContainerIter.Value"] == "{ return i.c.values[i.i] }"
+	bitmapIterNext := bodies["*BitmapIter.Next"] == "{ if bi.read { bi.read = false bi.j++ } for bi.i < len(bi.bm.set) { for bi.j < 64 { if bi.bm.set[bi.i]&(1<<bi.j) != 0 { bi.read = true return true } bi.j++ } bi.i++ bi.j = 0 } return false }" &&
+		bodies["*BitmapIter.Value"] == "{ return uint(bi.i<<6 + bi.j) }" &&
+		bodies["*bitmapContainerIter.Value"] == "{ return uint16((*BitmapIter)(i).Value()) }"
+	iterValue := bodies["*RoaringBitmapIter.Value"] == "{ return uint32(i.node.Key())<<16 | uint32(i.iter.Value()) }"
+	split := true
+	for _, fn := range []string{"*RoaringBitmap.Add", "*RoaringBitmap.Remove", "*RoaringBitmap.Contains"} {
+		split = split && strings.HasPrefix(bodies[fn], "{ high := uint16(num >> 16) low := uint16(num) ")
+	}
+	bitSplit := true
+	for _, fn := range []string{"*Bitmap.Add", "*Bitmap.Remove", "*Bitmap.Contains", "*Bitmap.add"} {
+		bitSplit = bitSplit && strings.HasPrefix(bodies[fn], "{ index, bit := int(num>>6), num&63 ")
+	}
+	cachedLen := bodies["*Bits.Add"] == "{ if b.Bitmap.Add(num) { b.length++ return true } return false }" &&
+		bodies["*Bits.Remove"] == "{ if b.Bitmap.Remove(num) { b.length-- return true } return false }" &&
+		bodies["*Bits.Len"] == "{ return b.length }" &&
+		bodies["*bitmapContainer.Add"] == "{ return b, (*Bits)(b).Add(uint(x)) }" &&
+		bodies["*bitmapContainer.Remove"] == "{ return (*Bits)(b).Remove(uint(x)) }" &&
+		bodies["*bitmapContainer.Len"] == "{ return (*Bits)(b).Len() }"
+	// setZero: `for i := 0; i < N; i += S` with b.set[i], b.set[i+1] … b.set[i+S-1] = 0
+	setZero := "0"
+	if m := regexp.MustCompile(`^\{ for i := 0; i < (\d+); i \+= (\d+) \{ (.*) \} \}$`).FindStringSubmatch(bodies["*bitmapContainer.setZero"]); m != nil {
+		var want strings.Builder
+		var s int
+		fmt.Sscanf(m[2], "%d", &s)
+		for k := 0; k < s && s <= 4096; k++ {
+			if k == 0 {
+				want.WriteString("b.set[i] = 0")
+			} else {
+				fmt.Fprintf(&want, " b.set[i+%d] = 0", k)
+			}
+		}
+		var n int
+		fmt.Sscanf(m[1], "%d", &n)
+		if s > 0 && m[3] == want.String() && n%s == 0 {
+			setZero = m[1]
+		}
+	}
+	searchBody := bodies["search"] == "{ low, high := 0, len(values) for low < high { mid := int(uint(low+high) >> 1) if values[mid] < x { low = mid + 1 } else { high = mid } } return low }"
+
 	var b strings.Builder
-	b.WriteString("-- generated by vcheck from setz/roaring_bitmap.go on every run; do not edit\n")
+	b.WriteString("-- generated by vcheck from setz/roaring_bitmap.go, setz/iter.go, setz/bits.go on every run; do not edit\n")
 	b.WriteString("namespace Golib.Gen.C03\n")
 	b.WriteString("def extractorOK : Bool := true\n")
 	fmt.Fprintf(&b, "/-- `if len(ac.values) < N` in arrayContainer.Add -/\ndef threshold : Nat := %s\n", thr)
@@ -102,6 +201,20 @@ func facts(repo string) (string, error) {
 	fmt.Fprintf(&b, "/-- `*(*[N]uint64)(unsafe.Pointer(&ac.values[0]))` -/\ndef words : Nat := %s\n", words)
 	fmt.Fprintf(&b, "/-- `newContainer.length = N` -/\ndef convertedLen : Nat := %s\n", card)
 	fmt.Fprintf(&b, "/-- `i.iter = nil` directly after `i.node = i.node.Next()` at the end of the loop body of Next -/\ndef iterReset : Bool := %v\n", reset)
+	fmt.Fprintf(&b, "/-- the function returned by RoaringBitmap.All (setz/iter.go) has the body of Range modulo the callback's name -/\ndef allBodyEqRange : Bool := %v\n", allEq)
+	fmt.Fprintf(&b, "/-- Remove: `ok = c.Remove(low); if ok { r.len--; if c.Len() == 0 { r.containers.Remove(high) } }; return ok`, the only call of containers.Remove -/\ndef removeGuard : Bool := %v\n", removeGuard)
+	fmt.Fprintf(&b, "/-- arrayContainer.Add: `pos := search(…)`, then the duplicate test returning `ac, false`, then the `len(ac.values) < N` test -/\ndef addDupBeforeThreshold : Bool := %v\n", dupFirst)
+	fmt.Fprintf(&b, "/-- `for j := 0; j < N; j++` in Range -/\ndef rangeInnerBound : Nat := %s\n", rangeInner)
+	fmt.Fprintf(&b, "/-- Range: `c.Type() == 1` selects the array loop over ac.values (Type() = 1 / 2), else `for i < len(set)`, `set[i]&(1<<j) != 0`, value `uint32(high)<<16 | uint32(i<<6+j)` -/\ndef rangeShape : Bool := %v\n", rangeShape)
+	fmt.Fprintf(&b, "/-- `&arrayContainerIter{c: ac, i: N}` -/\ndef arrIterStart : Int := %s\n", arrIterStart)
+	fmt.Fprintf(&b, "/-- arrayContainerIter.Next / Value as modelled (`i.i < len(i.c.values)-1`, `values[i.i]`) -/\ndef arrIterShape : Bool := %v\n", arrIterNext)
+	fmt.Fprintf(&b, "/-- BitmapIter.Next (read flag, `bi.j < 64`, `bi.i++; bi.j = 0`) / Value (`bi.i<<6 + bi.j`, truncated to uint16) as modelled -/\ndef bitmapIterShape : Bool := %v\n", bitmapIterNext)
+	fmt.Fprintf(&b, "/-- RoaringBitmapIter.Value = `uint32(i.node.Key())<<16 | uint32(i.iter.Value())` -/\ndef iterValueShape : Bool := %v\n", iterValue)
+	fmt.Fprintf(&b, "/-- Add/Remove/Contains start with `high := uint16(num >> 16); low := uint16(num)` -/\ndef splitShape : Bool := %v\n", split)
+	fmt.Fprintf(&b, "/-- Bitmap.Add/Remove/Contains/add start with `index, bit := int(num>>6), num&63` -/\ndef bitSplitShape : Bool := %v\n", bitSplit)
+	fmt.Fprintf(&b, "/-- Bits.Add/Remove/Len keep the cached length (`length++` / `length--` exactly when the Bitmap answers true); bitmapContainer delegates to them -/\ndef cachedLenShape : Bool := %v\n", cachedLen)
+	fmt.Fprintf(&b, "/-- setZero: `for i := 0; i < N; i += S` assigning b.set[i] … b.set[i+S-1] = 0, S | N (0: shape not found) -/\ndef setZeroWords : Nat := %s\n", setZero)
+	fmt.Fprintf(&b, "/-- `search` is the loop the model's searchLoop mirrors -/\ndef searchShape : Bool := %v\n", searchBody)
 	fmt.Fprintf(&b, "def iterNextBody : String := %q\n", next)
 	b.WriteString("end Golib.Gen.C03\n")
 	return b.String(), nil
